@@ -35,7 +35,8 @@ var (
 	verifMarshCall int
 )
 
-var verifValues = [2][3]string{{"m0a0", "m0a1", "m0a2"}, {"m1a0", "m1a1", "m1a2"}}
+// (values with leading / trailing blanks: whether such a candidate parses is the parser's business)
+var verifValues = [2][3]string{{" m0a0", "m0a1 ", "m0a2"}, {"m1a0", " m1a1 ", "m1a2"}}
 
 func verifSDPUnmarshal(d *sdp.SessionDescription, value []byte) error {
 	if verifapi.Bool("sdp.unmarshalFails") {
@@ -101,6 +102,7 @@ func verifFind(value string) *verifAttr {
 }
 func verifUnmarshalCandidate(raw string) (ice.Candidate, error) {
 	a := verifFind(raw)
+	verifapi.Assert(a != nil, "the candidate parser is given exactly the attribute's value")
 	if a.candFails {
 		// results returned together with an error are unspecified: hand back an unusable value
 		return verifPoison{}, errors.New("ice: malformed candidate (stub)")
